@@ -126,7 +126,8 @@ def run(ctx):
                 "consumes x every value of the length byte that matters (incl. those making a width negative). Each packet is run alone "
                 "through the real packet_generator with parse_bad_pkts True and False; observed (items, warning, exception) must match "
                 "the classification of the model's end state: clean iff status ok and cursor = packet bits; poisoned (out-of-bounds or "
-                "negative-width read) never clean. distinct = (layout, route, packet).")
+                "negative-width read) never clean. The packets that parse to the end are also sent as one stream through one generator (every "
+                "mis-sized one flagged, all of them withheld when excluded). distinct = (layout, route, packet).")
     ctx.assumptions = ["packets are well-formed CCSDS packets (length field consistent with their size)",
                        "after an out-of-bounds or negative-width read the specification only demands 'not clean' (exception, or flagged "
                        "and withheld when bad packets are excluded); the garbage values are not compared"]
@@ -149,6 +150,42 @@ def run(ctx):
     for need in ("classify_status_ok_exact", "classify_status_ok_inexact", "classify_status_poisoned"):
         if not t.get(need):
             ctx.vacuity(f"no case reached {need}")
+    # ---- the same classification when the packets come in ONE stream through ONE generator: every packet that parses to the end but
+    # does not consume exactly its bits is flagged, each of them (not only the first of its kind), and withheld when bad packets are excluded
+    import io
+    import warnings
+    from harness import core
+    bylabel = {}
+    for ln, pi, status, exact in col:
+        if status == "ok":
+            bylabel.setdefault((ln["label"], tuple(ln["route"])), [ln, []])[1].append((pi, bool(exact)))
+    nstreams = 0
+    for (label, route), (ln, members) in bylabel.items():
+        members = members[:60]
+        if len(members) < 4:
+            continue
+        stream = b"".join(bytes(ln["pkts"][pi]) for pi, _ in members)
+        try:
+            dobj = xdoc.make(ln["defn"], tuple(route))
+        except Exception:  # noqa: BLE001
+            continue
+        nbad = sum(1 for _, ex in members if not ex)
+        for flag in (True, False):
+            with warnings.catch_warnings(record=True) as w:
+                warnings.simplefilter("always")
+                try:
+                    n_y = sum(1 for _ in dobj.packet_generator(io.BytesIO(stream), parse_bad_pkts=flag, root_container_name=ln["defn"]["root"]))
+                except Exception as e:  # noqa: BLE001
+                    n_y = f"raised {type(e).__name__}"
+            want_y = len(members) if flag else len(members) - nbad
+            nstreams += 1
+            ctx.traces += 1
+            if n_y != want_y or core.flag_warnings(w) != nbad:
+                ctx.violation(f"C14/stream/{'flagged' if flag else 'withheld'}", f"layout {label} via {route}: a stream of {len(members)} packets of which {nbad} "
+                              f"do not consume exactly their bits, parse_bad_pkts={flag}: {n_y} yielded (expected {want_y}), "
+                              f"{core.flag_warnings(w)} length-mismatch warnings (expected {nbad})",
+                              {"defn": ln["defn"], "route": list(route), "pkts": [ln["pkts"][pi] for pi, _ in members], "stream": True})
+    ctx.extra["streams_classified"] = nstreams
     ctx.exhaustive = False
     for ln, pi, status, exact in col:
         if status == "poisoned":
@@ -162,5 +199,11 @@ def run(ctx):
 
 
 def replay(ctx, obj):
+    if obj.get("stream"):
+        print("stream-level case: packets are replayed one by one; re-run the check for the stream-level comparison")
+        for pk in obj["pkts"][:20]:
+            g = {"defn": obj["defn"], "pkts": [pk], "route": tuple(obj.get("route", ["obj"])), "label": "replay"}
+            dc.run_groups(ctx, "C14", [g], "replay", jobs=1, gen_level=True)
+        return
     g = {"defn": obj["defn"], "pkts": [obj["pkt"]], "route": tuple(obj.get("route", ["obj"])), "label": "replay"}
     print(dc.run_groups(ctx, "C14", [g], "replay", jobs=1, gen_level=True))
